@@ -15,7 +15,8 @@ import (
 )
 
 var c13FirstKinds = []string{"listener address:port", "alias:port", "alias without port (listener on 5060)", "alias without port (listener not on 5060) - near miss",
-	"listener address, other port - near miss", "listener port on a foreign host - near miss", "name resolving to another address - near miss", "foreign next hop only", "no Route"}
+	"listener address, other port - near miss", "listener port on a foreign host - near miss", "name resolving to another address - near miss", "foreign next hop only", "no Route",
+	"alias of another listener of the service, with this listener's port - near miss"}
 
 type c13Case struct {
 	Instance string     `json:"instance"`
@@ -39,8 +40,8 @@ func c13Decorate(rt *rapid.T, label string, n ANameAddr, lrOptional bool) ANameA
 }
 
 func TestC13(t *testing.T) {
-	V.Rule("lab: Route sets of 0-6 entries over 1-6 header lines (',' / ', ' / one per line, odd-case names, any position among the other headers) whose first entry is the listener by address:port, by alias with port, by alias without port (listener on 5060), a near miss (alias without port on a listener not on 5060, listener address with another port, listener port on a foreign host, a name resolving elsewhere) or a plain next hop; entries with token/quoted display names, sip/sips URIs with users, ports, lr in any position, valued and valueless URI parameters, transport=udp|tcp, 0-3 header parameters; keep-next-hop-route in every accepted spelling and via the environment default; UDP and TCP ingress on three listen entries; each route set is sent up to three times (same Route lines; new Call-ID and branch, or the same branch again with the same or another Call-ID). Oracle: reference model - consumed iff port (default 5060) equals the listener's port and host equals its address or resolves to it; hop = first remaining entry; relayed list = input - consumed - (hop unless keep), textually and in order; near misses consume nothing and are themselves the hop. non-trivial = >= 3 entries in >= 2 lines with an alias or near-miss first entry, or entries with header parameters; distinct by message")
-	V.Require("route set towards a tcp next hop that refuses connections, then accepts them", "first:alias without port (listener on 5060)", "first:alias without port (listener not on 5060) - near miss", "first:listener address, other port - near miss", "first:listener port on a foreign host - near miss", "first:name resolving to another address - near miss", "first:listener address:port", "first:alias:port", "first:alias written with capital letters, as configured", "keep:on", "keep:off", "same route set repeated", "same route set repeated with the same top Via branch", "own consumed", "entries with header parameters", ">=3 entries in >=2 lines")
+	V.Rule("lab: Route sets of 0-6 entries over 1-6 header lines (',' / ', ' / one per line, odd-case names, any position among the other headers) whose first entry is the listener by address:port, by alias with port, by alias without port (listener on 5060), a near miss (alias without port on a listener not on 5060, listener address with another port, listener port on a foreign host, a name resolving elsewhere, the alias of another listener of the same service with this listener's port) or a plain next hop; entries with token/quoted display names, sip/sips URIs with users, ports, lr in any position, valued and valueless URI parameters, transport=udp|tcp, 0-3 header parameters; keep-next-hop-route in every accepted spelling and via the environment default; UDP and TCP ingress on three listen entries; each route set is sent up to three times (same Route lines; new Call-ID and branch, or the same branch again with the same or another Call-ID). Oracle: reference model - consumed iff port (default 5060) equals the listener's port and host equals its address or resolves to it; hop = first remaining entry; relayed list = input - consumed - (hop unless keep), textually and in order; near misses consume nothing and are themselves the hop. non-trivial = >= 3 entries in >= 2 lines with an alias or near-miss first entry, or entries with header parameters; distinct by message")
+	V.Require("first:alias of another listener of the service, with this listener's port - near miss", "route set towards a tcp next hop that refuses connections, then accepts them", "first:alias without port (listener on 5060)", "first:alias without port (listener not on 5060) - near miss", "first:listener address, other port - near miss", "first:listener port on a foreign host - near miss", "first:name resolving to another address - near miss", "first:listener address:port", "first:alias:port", "first:alias written with capital letters, as configured", "keep:on", "keep:off", "same route set repeated", "same route set repeated with the same top Via branch", "own consumed", "entries with header parameters", ">=3 entries in >=2 lines")
 	variants := []stdVariant{{Keep: ""}, {Keep: "on"}, {Keep: "Y"}, {Keep: "0"}, {Keep: "", KeepEnv: "true"}, {Keep: "false", KeepEnv: "true"}}
 	var svcs []*stdSvc
 	for _, v := range variants {
@@ -157,6 +158,14 @@ func TestC13(t *testing.T) {
 			first(AURI{Scheme: "sip", Host: s.ip(60), Port: L.Port, Params: lr})
 		case 6:
 			first(AURI{Scheme: "sip", Host: "foreign.test", Port: L.Port, Params: lr})
+		case 9:
+			// (what one listener is called is not what its sibling is called, whatever
+			// the sibling has been asked before: the service's listeners share tables)
+			if L.Port != 5060 {
+				g.Entry, g.TCP = 0, false
+				L = s.transportOf(g)
+			}
+			first(AURI{Scheme: "sip", Host: rapid.SampledFrom([]string{"proxy-b.test", "proxy-c.test"}).Draw(rt, "sibling"), Port: L.Port, Params: lr})
 		}
 		// the next hop (or absent: the request then falls through to the other rules)
 		hasHop := kind == 7 || (kind != 8 && rapid.IntRange(0, 4).Draw(rt, "hashop") > 0)
